@@ -239,8 +239,11 @@ RETCODE adfUndelDir ( struct AdfVolume * vol,
     }
     /* insert the entry in the parent hashTable, with the headerKey sector pointer */
     adfSetBlockUsed(vol,entry->headerKey);
-    if ( adfCreateEntry ( vol, &parent, name, entry->headerKey ) == -1 )
+    if ( adfCreateEntry ( vol, &parent, name, entry->headerKey ) == -1 ) {
+        /* not linked (the name exists again, or an I/O error): the block goes back */
+        adfSetBlockFree ( vol, entry->headerKey );
         return RC_ERROR;
+    }
 
     if (isDIRCACHE(vol->dosType)) {
         /* the directory's own cache block is taken before the parent's cache may ask for a new block */
@@ -265,7 +268,7 @@ RETCODE adfUndelFile ( struct AdfVolume *        vol,
                        struct bFileHeaderBlock * entry )
 {
     (void) nSect;
-    int32_t i;
+    int32_t nData = 0, nExt = 0;     /* data / extension blocks marked used so far */
     char name[MAXNAMELEN+1];
     struct bEntryBlock parent;
     RETCODE rc;
@@ -289,23 +292,21 @@ RETCODE adfUndelFile ( struct AdfVolume *        vol,
         return rc;
 
     adfSetBlockUsed ( vol, entry->headerKey );
-    for(i=0; i<fileBlocks.nbData; i++)
-        if ( !adfIsBlockFree(vol,fileBlocks.data[i]) )
-            return RC_ERROR;
-        else
-            adfSetBlockUsed(vol, fileBlocks.data[i]);
-    for(i=0; i<fileBlocks.nbExtens; i++)
-        if ( !adfIsBlockFree(vol,fileBlocks.extens[i]) )
-            return RC_ERROR;
-        else
-            adfSetBlockUsed(vol, fileBlocks.extens[i]);
-
-    free(fileBlocks.data);
-    free(fileBlocks.extens);
+    rc = RC_ERROR;
+    for ( ; nData < fileBlocks.nbData ; nData++ ) {
+        if ( ! adfIsBlockFree ( vol, fileBlocks.data[nData] ) )
+            goto adfUndelFile_giveback;
+        adfSetBlockUsed ( vol, fileBlocks.data[nData] );
+    }
+    for ( ; nExt < fileBlocks.nbExtens ; nExt++ ) {
+        if ( ! adfIsBlockFree ( vol, fileBlocks.extens[nExt] ) )
+            goto adfUndelFile_giveback;
+        adfSetBlockUsed ( vol, fileBlocks.extens[nExt] );
+    }
 
     rc = adfReadEntryBlock ( vol, pSect, &parent );
     if ( rc != RC_OK )
-        return rc;
+        goto adfUndelFile_giveback;
 
     strncpy(name, entry->fileName, entry->nameLen);
     name[(int)entry->nameLen] = '\0';
@@ -314,11 +315,16 @@ RETCODE adfUndelFile ( struct AdfVolume *        vol,
         entry->nextSameHash = 0;
         rc = adfWriteFileHdrBlock ( vol, entry->headerKey, entry );
         if ( rc != RC_OK )
-            return rc;
+            goto adfUndelFile_giveback;
     }
     /* insert the entry in the parent hashTable, with the headerKey sector pointer */
-    if ( adfCreateEntry(vol, &parent, name, entry->headerKey) == -1 )
-        return RC_ERROR;
+    if ( adfCreateEntry(vol, &parent, name, entry->headerKey) == -1 ) {
+        rc = RC_ERROR;
+        goto adfUndelFile_giveback;
+    }
+
+    free(fileBlocks.data);
+    free(fileBlocks.extens);
 
     if (isDIRCACHE(vol->dosType)) {
         rc = adfAddInCache ( vol, &parent, (struct bEntryBlock *) entry );
@@ -327,6 +333,18 @@ RETCODE adfUndelFile ( struct AdfVolume *        vol,
     }
 
     return adfUpdateBitmap ( vol );
+
+adfUndelFile_giveback:
+    /* the file was not linked (one of its blocks is in use, its name exists again, or an I/O error):
+       the blocks marked above go back, so that a refused undelete leaves the free map as it was */
+    adfSetBlockFree ( vol, entry->headerKey );
+    while ( nData > 0 )
+        adfSetBlockFree ( vol, fileBlocks.data[--nData] );
+    while ( nExt > 0 )
+        adfSetBlockFree ( vol, fileBlocks.extens[--nExt] );
+    free(fileBlocks.data);
+    free(fileBlocks.extens);
+    return rc;
 }
 
 
